@@ -21,7 +21,7 @@ LEVEL = "exploration"
 RULE = ("every parameter class x configuration (must_exist, valid_types of CSV and NetCDF reads, nested ListParameters, ResultParameter "
         "with/without output type and each is_fuzzy) x ~130 raw values of every kind the parser or API delivers x working directory in "
         "{None, absolute, relative, empty}; plus live contracts during random whole-model runs; distinct by (parameter config, raw value class, wd, outcome class)")
-REQUIRED_COUNTERS = ["failed_command_rechecks", "clean_calls_judged", "contract_evaluations", "idempotence_checks", "purity_snapshots_compared", "live_double_clean_pairs", "live_argument_snapshots_compared"]
+REQUIRED_COUNTERS = ["nested_list_runs", "failed_command_rechecks", "clean_calls_judged", "contract_evaluations", "idempotence_checks", "purity_snapshots_compared", "live_double_clean_pairs", "live_argument_snapshots_compared"]
 ASSUMPTIONS = ["don't-care: what StringParameter makes of non-scalars, bool given to NumberParameter, ints other than 0/1 and numeric strings other than "
                "'0'/'1' given to BooleanParameter, 'nan'/'inf'/underscore literals, relative working directories", "NaN compared NaN-aware"]
 
@@ -39,7 +39,9 @@ def snap(v, depth=0):
     if isinstance(v, Argument):
         return ("arg", type(v).__name__, v.name, snap(v.value, depth + 1), v.lineno, snap(getattr(v, "list_linenos", None), depth + 1))
     if isinstance(v, numpy.ndarray):
-        return ("arr", arr.digest(v))
+        # contents and the state a later assignment depends on: hard / soft mask, fill value, writeability, mask presence
+        return ("arr", arr.digest(v), bool(getattr(v, "hardmask", False)), repr(getattr(v, "fill_value", None)), bool(v.flags.writeable),
+                numpy.ma.getmask(v) is numpy.ma.nomask, bool(getattr(v, "sharedmask", False)))
     if isinstance(v, dict):
         return ("dict", tuple((snap(k, depth + 1), snap(x, depth + 1)) for k, x in v.items()))
     if isinstance(v, (list, tuple)):
@@ -265,7 +267,7 @@ def pool(program, d, with_arrays=False):
         "Float", "Integer", "Positive Float", "Positive Integer", "Fuzzy", "float", "Complex",
         os.path.join(d, "in.csv"), os.path.join(d, "missing.csv"), "in.csv", "sub/in.csv", "missing.csv", "./in.csv", "../x.csv", d, "é.csv",
         "link/../in.csv", "sub/../in.csv", "sub//in.csv", "link/../missing.csv",
-        "A", "F", "U", "Nope", "a", "TupleRes", "NumRes", "TextRes", ["TupleRes", "NumRes"],
+        "A", "F", "U", "Nope", "a", "H", "RO", ["H", "A"], program.commands["H"], "TupleRes", "NumRes", "TextRes", ["TupleRes", "NumRes"],
         [], [1, 2], [1.5, 2], [1, 1.0], [2.0, 2], [1, 1.0, True], [0, 0.0, False, "0"], ["1", 1, 1.0], [3, 3, 3.0, 3.0], [Argument("x", 1), Argument("x", 1.0)],
         "V", ["V"], ["A", "V"], program.commands["V"], [program.commands["V"], A], ["1", "2.5"], ["1", "x"], ["A", "F"], ["A", "A"], ["F"], ["A", "Nope"], [A, F], [A], [U], [[1], [2, 3]], [[1], 2], [[]], [["A"]],
         [True, "false", 0], [None], (1, 2), ("A",), [Argument("x", 5)], [Argument("x", "A")], [Argument("x", [1])], [1, [2, [3]]],
@@ -275,7 +277,8 @@ def pool(program, d, with_arrays=False):
     ]
     if with_arrays:
         # arrays are what finished commands hand to DataParameter; no parser or API path delivers them to other parameters
-        vals += [numpy.array([1.0, 2.0]), numpy.ma.array([1.0, 2.0], mask=[0, 1])]
+        vals += [numpy.array([1.0, 2.0]), numpy.ma.array([1.0, 2.0], mask=[0, 1]), numpy.ma.array([1.0, 2.0], mask=[0, 1], hard_mask=True, fill_value=7.0),
+                 numpy.ma.array([1, 2], mask=[1, 0], dtype="int32")]
     return vals
 
 
@@ -313,6 +316,11 @@ def cases(ctx):
                 yield {"kind": "matrix", "config": ci, "wd": wd}
             idx += 1
     rng = ctx.rng("live")
+    for i in range(ctx.n(24, 800)):
+        # a user command with an untyped list input, given nested lists (from a file and through the API)
+        def nest(depth):
+            return [nest(depth - 1) if depth and rng.random() < 0.45 else rng.choice([1, 2, 3.5, "w", -7, 0.25, "x y"]) for _ in range(rng.randint(1, 4))]
+        yield {"kind": "live-nested", "value": [nest(2) for _ in range(rng.randint(2, 4))] + [rng.randint(1, 9)], "api": i % 2 == 1, "cmd": rng.choice(["Dif", "union", "Read", "xor"])}
     for i in range(ctx.n(160, 8000)):
         yield {"kind": "live", "model": models.gen_model(rng, n_ops=rng.randint(1, 8), sinks=True, metadata=rng.random() < 0.4), "api": rng.random() < 0.3}
 
@@ -340,6 +348,11 @@ def _world(ctx, wd):
     # finished producers of non-array results (what user libraries return): a tuple of numeric texts, a number, a text
     for nm, val in (("TupleRes", ("1", "2.5", 3)), ("NumRes", 5), ("TextRes", "7")):
         arr.standin(program, nm, val)
+    # a finished result with a hard mask and a fill value of its own, and a read-only one
+    arr.standin(program, "H", numpy.ma.array([1.0, 2.0, 3.0], mask=[0, 1, 0], hard_mask=True, fill_value=-5.0), fuzzy=False)
+    ro = numpy.ma.array([1.0, 2.0, 3.0], mask=[0, 0, 1])
+    ro.flags.writeable = False
+    arr.standin(program, "RO", ro, fuzzy=False)
     # commands that are not part of this program: one from another program, one built by hand
     other = arr.new_program(working_dir=d if wd == "abs" else None)
     program._foreign = [arr.standin(other, "Foreign", numpy.ma.array([4.0, 5.0]), fuzzy=False)]
@@ -366,6 +379,12 @@ def _world(ctx, wd):
 
 def run_case(ctx, case):
     if case["kind"] == "live":
+        return run_live(ctx, case)
+    if case["kind"] == "live-nested":
+        case = dict(case, model={"table": {"cols": {"X": {"data": [1, 2], "integer": True}}, "nrows": 2, "missing": None, "file": "in.csv"},
+                                 "commands": [{"result": "In_X0", "cmd": "EEMSRead", "args": {"InFileName": "in.csv", "InFieldName": "X"}},
+                                              {"result": "Kept", "cmd": case["cmd"], "args": {"Anything": case["value"], "InFieldName": "In_X0"}},
+                                              {"result": "Kept2", "cmd": "Dif", "args": {"Anything": [case["value"], [case["value"]]], "A": "Kept"}}]}, libs=arr.CSV_LIBS + ("usercmds",))
         return run_live(ctx, case)
     from mpilot.exceptions import ProgramError
     from mpilot import params as P
@@ -493,6 +512,15 @@ def run_case(ctx, case):
         ctx.sample({"parameter": label, "working_dir": case["wd"], "raw_values_tried": len(vals), "example": [repr(vals[3]), repr(vals[16]), repr(vals[60])[:60]]})
 
 
+def _plain(v):
+    from mpilot.arguments import Argument
+    if isinstance(v, Argument):
+        v = v.value
+    if isinstance(v, (list, tuple)):
+        return tuple(_plain(x) for x in v)
+    return v
+
+
 def run_live(ctx, case):
     """Whole-model run with the contracts on: every argument is cleaned by the pre-pass and again by Command.run."""
     from mpilot.program import Program
@@ -503,12 +531,12 @@ def run_live(ctx, case):
     nviol = len(_rec["violations"])
     try:
         if case.get("api"):
-            prog = Program(working_dir=d)
+            prog = Program(working_dir=d) if not case.get("libs") else Program(libraries=case["libs"], working_dir=d)
             for c in model["commands"]:
                 prog.add_command(prog.find_command_class(c["cmd"]), c["result"], copy.deepcopy(c["args"]))
         else:
             text, _ = models.to_text(model)
-            prog = Program.from_source(text, working_dir=d)
+            prog = Program.from_source(text, working_dir=d) if not case.get("libs") else Program.from_source(text, libraries=case["libs"], working_dir=d)
         raw_before = [(n, [snap(a) for a in c.arguments]) for n, c in prog.commands.items()]
         text_before = prog.to_string()
         try:
@@ -521,7 +549,15 @@ def run_live(ctx, case):
                 ctx.fail("live:running-the-program-alters-its-raw-arguments", {"commands": changed[:5], "example": [repr(x)[:200] for x in [a for (n, a) in raw_before if n in changed][:1] + [b for (n, b) in raw_after if n in changed][:1]]})
             elif prog.to_string() != text_before:
                 ctx.fail("live:running-the-program-alters-its-serialised-form", {})
+        if case["kind"] == "live-nested":
+            ctx.count("nested_list_runs")
+            got = prog.commands["Kept"].result
+            want = ("user", case["cmd"], (("Anything", _plain(case["value"])), ("InFieldName", ("result-of", "In_X0"))))
+            if _plain(got) != want:
+                ctx.fail("live:untyped-nested-list-not-handed-over-as-written", {"got": repr(got)[:300], "want": repr(want)[:300], "api": case.get("api")})
     except Exception as e:
+        if case["kind"] == "live-nested":
+            ctx.fail("live:nested-list-model-raises-%s" % type(e).__name__, {"error": str(e)[:300], "value": repr(case["value"])[:200]})
         ctx.dontcare("live model raised %s" % type(e).__name__)
     ctx.feature(("live", case.get("api", False), tuple(sorted(set(c["cmd"] for c in model["commands"])))[:5]))
     for v in _rec["violations"][nviol:]:
